@@ -11,14 +11,14 @@
 (* offset and its length).                                                 *)
 (***************************************************************************)
 EXTENDS VFOpen, TLC
-CONSTANTS MaxLinks, Lens, Chunk, Read, Shapes, Trim, Damage, Clamp
+CONSTANTS MaxLinks, Lens, Chunk, Read, Shapes, Trim, Damage, Clamp, SearchFrom
 G0s == IF Trim THEN {0, 2, -2} ELSE {0, 2}      \* -2: the first page announces fewer samples than its packets account for
 VARIABLES chain,         \* sequence of [shape, len, g0]
           dmg,           \* the damage done to the page sequence: a sequence of [k, kind] (empty: none)
           res,           \* what the open makes of it (computed once per file)
           judged         \* res is there
 vars == <<chain, dmg, res, judged>>
-K == [chunk |-> Chunk, near |-> 3, read |-> Read, backup |-> "begin", handover |-> "refetch", clamp |-> Clamp]
+K == [chunk |-> Chunk, near |-> 3, read |-> Read, backup |-> "begin", handover |-> "refetch", clamp |-> Clamp, searchfrom |-> SearchFrom]
 
 \* shape = [mux, hdr, data]: mux 0 none / 1 foreign BOS after ours / 2 before; hdr = pages the two remaining header packets take; data over {"v","n","f"}
 Catalogue == <<
